@@ -44,7 +44,7 @@ ASSUMPTIONS = [
 KINDS = ("supervised", "semi", "knn", "unsup", "unsup_prop")
 
 
-EXPECTED_PROBES = ['non_float64_features', 'index_arrays_passed_without_precomputed_distances', 'batch_longer_than_training_set', 'duplicates_inside_one_batch', 'model_', 'position_ge1_is_valid_training_index', 'query_equals_training_sample', 'query_raises_consistently', 'successful_predict_after_abort']
+EXPECTED_PROBES = ['distance_matrix_unrelated_to_features', 'query_of_overflowing_magnitude', 'non_float64_features', 'index_arrays_passed_without_precomputed_distances', 'batch_longer_than_training_set', 'duplicates_inside_one_batch', 'model_', 'position_ge1_is_valid_training_index', 'query_equals_training_sample', 'query_raises_consistently', 'successful_predict_after_abort']
 
 
 def arms(tier):
@@ -108,9 +108,13 @@ def gen_case(rng, arm, tier, k=0):
             elif r < 0.65:
                 a, b = rng.randrange(n), rng.randrange(n)
                 pool.append(["row", [(X[a][j] + X[b][j]) / 2 for j in range(d)]])
-            elif r < 0.75:
+            elif r < 0.72:
                 a = rng.randrange(n)
                 pool.append(["row", [X[a][j] * 10 + 1 for j in range(d)]])
+            elif r < 0.75:
+                # finite but so large that squared differences overflow to inf
+                big = rng.choice((1e200, 1.7e308, -1e200, 1e160))
+                pool.append(["row", [big if rng.random() < 0.7 else X[0][j] for j in range(d)]])
             else:
                 pool.append(["row", gen_matrix(rng, 1, d, style if style != "dups" else "lattice")[0]])
     if case.get("dtype"):
@@ -118,6 +122,10 @@ def gen_case(rng, arm, tier, k=0):
         if "XU" in case:
             case["XU"] = [[float(int(abs(v)) % 4) for v in r] for r in case["XU"]]
     case["pool"] = pool
+    if arm == "pre" and rng.random() < 0.35:
+        # distances that do not come from the features (the caller's own dissimilarities): with
+        # a pre-computed matrix a sample is identified by its index alone
+        case["free_matrix_seed"] = rng.getrandbits(30)
     ops = []
     for _ in range(rng.randint(4, 30)):
         r = rng.random()
@@ -195,9 +203,17 @@ def build_model(case):
         D = [list(r) for r in case["X"]] + ([] if kind == "knn" else rows)
         N = len(D)
         M = np.zeros((N, N))
-        for i in range(N):
-            for j in range(N):
-                M[i, j] = fn(np.array(D[i], dtype=np.float64), np.array(D[j], dtype=np.float64))
+        if case.get("free_matrix_seed") is not None:
+            import random as _random
+
+            r_ = _random.Random(case["free_matrix_seed"])
+            for i in range(N):
+                for j in range(i + 1, N):
+                    M[i, j] = M[j, i] = float(r_.randint(1, 6)) if r_.random() < 0.5 else round(r_.uniform(0.1, 9.0), 2)
+        else:
+            for i in range(N):
+                for j in range(N):
+                    M[i, j] = fn(np.array(D[i], dtype=np.float64), np.array(D[j], dtype=np.float64))
         m.pre_computed_distance = True
         m.pre_distances = M
         I = iarr(list(range(n)))
@@ -380,6 +396,10 @@ def run_case(case):
         bump(out.probes, "model_" + kind)
         if case.get("dtype"):
             bump(out.probes, "non_float64_features")
+        if case.get("free_matrix_seed") is not None:
+            bump(out.probes, "distance_matrix_unrelated_to_features")
+        if any(p_[0] == "row" and any(abs(v) >= 1e150 for v in p_[1]) for p_ in case["pool"]):
+            bump(out.probes, "query_of_overflowing_magnitude")
         if case.get("query_idx"):
             bump(out.probes, "index_arrays_passed_without_precomputed_distances")
     except Stop as s:
